@@ -203,6 +203,8 @@ inductive Witness (F : Type) where
   | draw (u : F)
   /-- one index list per tournament / per population member (indices into the sampled slice) -/
   | sets (ss : List (List Nat))
+  /-- `DEBest` / `DECurrentToBest`: additionally the position of the member standing in the "best" slot -/
+  | setsBest (bi : Nat) (ss : List (List Nat))
 
 section ops
 variable {F : Type} [Add F] [Sub F] [Mul F] [Div F] [LT F] [LE F] [DecidableLT F] [DecidableLE F]
@@ -230,6 +232,16 @@ def best (pop : Pop F) : Except Err (Option (Ind F)) :=
   match withKeys pop with
   | none => .error .panic
   | some ks => .ok ((firstMin ks).map (·.1))
+
+/-- The member in the "best" slot of the DE selections.  The documentation says "best"; WHICH of
+several equally good members that is, is not fixed by it, so the witness carries the position `i` the
+implementation chose (`Legal` demands `BestIdx`: a member of minimal objective; the code's own choice
+`best` — `min_by_key`, the first minimum — is one of them).  As in `best`: an unevaluated member
+panics, an empty population has no best (`None`, reported as `Err` by the callers). -/
+def bestAt (pop : Pop F) (i : Nat) : Except Err (Option (Ind F)) :=
+  match withKeys pop with
+  | none => .error .panic
+  | some _ => .ok pop[i]?
 
 /-- `Individual: PartialEq` — same solution and same objective (`==` on `f64`). -/
 def sameInd (a b : Ind F) : Bool :=
@@ -313,15 +325,15 @@ def select (O : Ops F) (op : Op F) (w : Witness F) (pop : Pop F) : Except Err (P
   | .deRand y, .sets ss =>
     -- ensure!(len >= 2y+1); (0..len).flat_map(|_| population.choose_multiple(rng, 2y+1))
     if pop.length < 2 * y + 1 then .error .exec else .ok (ss.flatMap fun s => pick pop s)
-  | .deBest y, .sets ss =>
+  | .deBest y, .setsBest bi ss =>
     -- ensure!(len >= 2y) comes before the best lookup
     if pop.length < 2 * y then .error .exec else
-    match best pop with
+    match bestAt pop bi with
     | .error e => .error e
     | .ok none => .error .exec
     | .ok (some b) => .ok (ss.flatMap fun s => b :: pick pop s)
-  | .deCurrentToBest y, .sets ss =>
-    match best pop with
+  | .deCurrentToBest y, .setsBest bi ss =>
+    match bestAt pop bi with
     | .error e => .error e
     | .ok none => .error .exec
     | .ok (some b) =>
@@ -364,6 +376,10 @@ def inRange (n : Nat) (is : List Nat) : Prop := ∀ i ∈ is, i < n
 /-- `choose_multiple(rng, k)` on a slice of length `n`: `min k n` distinct positions. -/
 def ChooseMultiple (n k : Nat) (s : List Nat) : Prop := s.length = min k n ∧ s.Nodup ∧ inRange n s
 
+/-- position of a best member: its objective is minimal (any position on an empty population) -/
+def BestIdx (pop : Pop F) (i : Nat) : Prop :=
+  pop = [] ∨ ∃ x a, pop[i]? = some x ∧ x.obj = some a ∧ ∀ y ∈ pop, ∀ b, y.obj = some b → a ≤ b
+
 def Legal (op : Op F) (pop : Pop F) : Witness F → Prop
   | .none => match op with
     | .all | .none | .cloneSingle _ | .iwo _ _ => True
@@ -379,9 +395,12 @@ def Legal (op : Op F) (pop : Pop F) : Witness F → Prop
   | .sets ss => match op with
     | .tournament n size => ss.length = n ∧ ∀ s ∈ ss, ChooseMultiple pop.length size s
     | .deRand y => ss.length = pop.length ∧ ∀ s ∈ ss, ChooseMultiple pop.length (2 * y + 1) s
-    | .deBest y => ss.length = pop.length ∧ ∀ s ∈ ss, ChooseMultiple pop.length (2 * y) s
-    | .deCurrentToBest y => ss.length = pop.length ∧
-        ∀ p ∈ pop.zip ss, ChooseMultiple (pop.filter (fun j => !sameInd j p.1)).length (2 * y - 1) p.2
+    | _ => False
+  | .setsBest bi ss => match op with
+    | .deBest y => (ss.length = pop.length ∧ ∀ s ∈ ss, ChooseMultiple pop.length (2 * y) s) ∧ BestIdx pop bi
+    | .deCurrentToBest y => (ss.length = pop.length ∧
+        ∀ p ∈ pop.zip ss, ChooseMultiple (pop.filter (fun j => !sameInd j p.1)).length (2 * y - 1) p.2) ∧
+        BestIdx pop bi
     | _ => False
 
 end ops
@@ -481,6 +500,13 @@ def nodupB (l : List Nat) : Bool :=
 def chooseMultipleB (n k : Nat) (s : List Nat) : Bool :=
   s.length == min k n && nodupB s && s.all (· < n)
 
+/-- executable `BestIdx` (evaluated populations) -/
+def bestIdxB (pop : FPop) (i : Nat) : Bool :=
+  pop.isEmpty ||
+  match pop[i]? with
+  | some x => x.obj.isSome && pop.all fun y => !((y.obj.getD 0) < (x.obj.getD 0))
+  | none => false
+
 /-- executable `Legal` -/
 def legalB (op : Op Float) (pop : FPop) : Witness Float → Bool
   | .none => match op with
@@ -497,10 +523,17 @@ def legalB (op : Op Float) (pop : FPop) : Witness Float → Bool
   | .sets ss => match op with
     | .tournament n size => ss.length == n && ss.all (chooseMultipleB pop.length size)
     | .deRand y => ss.length == pop.length && ss.all (chooseMultipleB pop.length (2 * y + 1))
-    | .deBest y => ss.length == pop.length && ss.all (chooseMultipleB pop.length (2 * y))
-    | .deCurrentToBest y => ss.length == pop.length &&
-        (pop.zip ss).all fun p => chooseMultipleB (pop.filter (fun j => !sameInd j p.1)).length (2 * y - 1) p.2
     | _ => false
+  | .setsBest bi ss => match op with
+    | .deBest y => ss.length == pop.length && ss.all (chooseMultipleB pop.length (2 * y)) && bestIdxB pop bi
+    | .deCurrentToBest y => ss.length == pop.length &&
+        ((pop.zip ss).all fun p => chooseMultipleB (pop.filter (fun j => !sameInd j p.1)).length (2 * y - 1) p.2) &&
+        bestIdxB pop bi
+    | _ => false
+
+/-- the position the code's `min_by_key` picks: the first member of minimal objective -/
+def codeBestIdx (cur : FPop) : Nat :=
+  cur.findIdx fun x => cur.all fun y => !((y.obj.getD 0) < (x.obj.getD 0))
 
 /-- indices of the selected individuals in the source population, read off the tags -/
 def recoverIdx (pop sel : FPop) : List Nat := sel.map fun x => pop.findIdx (fun y => y.tag == x.tag)
@@ -612,10 +645,20 @@ def violation (op : Op Float) (cur : FPop) (rest : List FPop) (stack' : List FPo
       else
         let count (n : Nat) : Option String := if sel.length == n then none else some "count"
         match op with
-        | .all => if popEq sel cur then none else some "count"
+        | .all =>
+          -- everything, every member once (the order of the copies is not part of the property)
+          if sel.length == len && cur.all (fun x => (sel.filter (indEq x)).length == (cur.filter (indEq x)).length)
+          then none else some "count"
         | .none => count 0
-        | .cloneSingle n | .fullyRandom n | .rouletteWheel n _ | .sus n _ | .linearRank n
+        | .cloneSingle n | .fullyRandom n | .rouletteWheel n _ | .linearRank n
         | .exponentialRank n _ => count n
+        | .sus n _ =>
+          -- copies in proportion to the weights up to one copy (`sus_copies_proportional`): a worse member
+          -- never gets more than two copies more than a better one (two: one boundary point on either side)
+          let counts := cur.map fun x => (sel.filter (indEq x)).length
+          if sel.length != n then some "count"
+          else if (objs.zip counts).all (fun (o, c) => (objs.zip counts).all fun (o', c') => !(o ≤ o') || c' ≤ c + 2)
+          then none else some "pressure"
         | .randomWithoutRepetition n =>
           if sel.length != n then some "count"
           else if !nodupB (recoverIdx cur sel) then some "repeat" else none
@@ -646,10 +689,9 @@ def violation (op : Op Float) (cur : FPop) (rest : List FPop) (stack' : List FPo
               ix.all (· < remaining.length) && nodupB ix) then none else some "repeat"
         | .iwo a b =>
           let counts := cur.map fun x => (sel.filter (indEq x)).length
-          let expected := (cur.zip counts).flatMap fun (x, c) => List.replicate c x
           let mx := (maxF objs).getD 0
-          if !popEq sel expected then some "order"
-          else if !counts.all (fun c => a ≤ c && c ≤ b) then some "count"
+          -- (the order of the copies is not part of the property; it is compared with the model only)
+          if !counts.all (fun c => a ≤ c && c ≤ b) then some "count"
           else if !(objs.zip counts).all (fun (o, c) => (objs.zip counts).all fun (o', c') => !(o ≤ o') || c' ≤ c) then some "pressure"
           else if mn < mx && !(objs.zip counts).all (fun (o, c) => (!(o == mn) || c == b) && (!(o == mx) || c == a)) then some "count"
           else none
@@ -666,12 +708,29 @@ def parseWitness : Sexp → Option (Witness Float)
   | .list (.atom "sets" :: ss) => (ss.mapM nats?).map .sets
   | _ => none
 
+/-- operators whose `select` reads objective values (`Individual::objective` panics on an
+unevaluated individual) -/
+def usesFitness : Op Float → Bool
+  | .rouletteWheel _ _ | .sus _ _ | .tournament _ _ | .linearRank _ | .exponentialRank _ _
+  | .deBest _ | .deCurrentToBest _ | .iwo _ _ => true
+  | _ => false
+
+/-- the harness' 'extreme' stream: some finite value beyond 1e150 (objective or offset) -/
+def isExtreme (op : Op Float) (cur : FPop) : Bool :=
+  let big (v : Float) : Bool := v.isFinite && v.abs > 1e150
+  cur.all (fun i => i.obj.isSome) &&
+  (cur.any (fun i => big (objOf i)) ||
+   match op with
+   | .rouletteWheel _ off | .sus _ off => big off
+   | _ => false)
+
 def inQuantifier (op : Op Float) (stack : List FPop) : Bool :=
   ctorOk op &&
   match stack with
   | [] => false
   | cur :: _ =>
-    cur.all (fun i => i.obj.isSome) &&
+    -- an unevaluated member is outside the quantifier only for the operators that read objective values
+    (cur.all (fun i => i.obj.isSome) || !usesFitness op) &&
     -- finite values beyond 1e150 make the weight arithmetic overflow: outside the (exact-arithmetic) property
     cur.all (fun i => let o := objOf i; !o.isFinite || o.abs ≤ 1e150) &&
     match op with
@@ -718,9 +777,19 @@ def handleSel (args : List Sexp) (implOut : Sexp) : Option CaseResult := do
           else (List.range len).take size
         .sets (List.replicate n c)
     | .deRand y => .sets (((okSel.map (chunks (2 * y + 1) len)).getD []).map fun blk => recoverUnused cur blk [])
-    | .deBest y => .sets (((okSel.map (chunks (2 * y + 1) len)).getD []).map fun blk => recoverUnused cur blk.tail [])
+    | .deBest y =>
+      -- the member in the "best" slot is read off the first block (any member of minimal objective is legal)
+      let blks := (okSel.map (chunks (2 * y + 1) len)).getD []
+      let bi := match blks with
+        | (b :: _) :: _ => cur.findIdx (indEq b)
+        | _ => codeBestIdx cur
+      .setsBest bi (blks.map fun blk => recoverUnused cur blk.tail [])
     | .deCurrentToBest y =>
-      .sets ((((okSel.map (chunks (2 * y + 1) len)).getD []).zip cur).map fun (blk, ind) =>
+      let blks := (okSel.map (chunks (2 * y + 1) len)).getD []
+      let bi := match blks with
+        | (_ :: b :: _) :: _ => cur.findIdx (indEq b)
+        | _ => codeBestIdx cur
+      .setsBest bi ((blks.zip cur).map fun (blk, ind) =>
         recoverUnused (cur.filter (fun j => !sameInd j ind)) (blk.drop 2) [])
     | .sus _ _ => wRep
   let (mstack, mres) : List FPop × Res :=
@@ -742,7 +811,46 @@ def handleSel (args : List Sexp) (implOut : Sexp) : Option CaseResult := do
          sel.all (fun x => cur.any (indEq x)) && (is.zip (is.drop 1)).all (fun (a, b) => a ≤ b) && susLegal ws n is
        | _ => false)
     | _, _, _ => false
-  let agree := exact || susFallback
+  -- Fitness-based selection applied to a population with an UNEVALUATED member is outside the property
+  -- (there is no fitness to select by); whether — and at which point — the implementation panics there
+  -- is not pinned down (`min_by_key` reads the key of a single competitor, an explicit first-minimum
+  -- loop does not).  Agreement on such a case: the implementation panics; or it does what the model
+  -- does (`exact`); or the model panics and the implementation reports an error (stack untouched) or
+  -- pushes a selection consisting of copies of source members (everything below untouched).
+  let unevalFallback : Bool :=
+    ctorOk op && usesFitness op && !stack.isEmpty && cur.any (fun i => i.obj.isNone) &&
+    match res with
+    | .panic => true
+    | .err => mres == .panic && stackEq stack' stack
+    | .ok => mres == .panic &&
+      (match stack' with
+       | sel :: below => stackEq below stack && sel.all (fun x => cur.any (indEq x))
+       | [] => false)
+    | .ctor => false
+  -- The 'extreme' stream (finite values beyond 1e150: the weight arithmetic of RouletteWheel / SUS / IWO
+  -- overflows to inf / NaN) is outside the exact-arithmetic property, and WHERE the overflow happens
+  -- depends on how the same weight is written (`(max - min) - (o - min)` overflows, `max - o` does not)
+  -- and on the association order of the sums — none of which is pinned down.  There, besides exact
+  -- agreement, any outcome that keeps the frame counts as agreement: `Err` / panic with the stack
+  -- untouched, or one pushed population of copies of source members (the requested number for the two
+  -- samplers).  The operators that only COMPARE objective values are still compared exactly.
+  let extremeFallback : Bool :=
+    isExtreme op cur &&
+    (match op with
+     | .rouletteWheel _ _ | .sus _ _ | .iwo _ _ => true
+     | _ => false) &&
+    match res with
+    | .err | .panic => stackEq stack' stack
+    | .ok =>
+      (match stack' with
+       | sel :: below =>
+         stackEq below stack && sel.all (fun x => cur.any (indEq x)) &&
+         (match op with
+          | .rouletteWheel n _ | .sus n _ => sel.length == n
+          | _ => true)
+       | [] => false)
+    | .ctor => false
+  let agree := exact || susFallback || unevalFallback || extremeFallback
   let cls := if inQuantifier op stack then
       match stack with
       | c :: rest => violation op c rest stack' res
@@ -769,7 +877,11 @@ def handleCase (input implOut : Sexp) : Option CaseResult :=
       | .ok (some ws) => .list (.atom "ws" :: ws.map ofFloat)
     let implWs := floatsOf implOut "ws"
     let agree := match m, implWs with
-      | .ok (some ws), some iw => ws.length == iw.length && (ws.zip iw).all fun (a, b) => closeF a b
+      | .ok (some ws), some iw =>
+        -- tolerance relative to the largest weight: `(max - min) - (o - min)` and `max - o` are the same
+        -- weight up to rounding, but a weight near 0 has no relative precision
+        let scale := ws.foldl (fun m w => if m < w.abs then w.abs else m) 0
+        ws.length == iw.length && (ws.zip iw).all fun (a, b) => closeF a b || (a - b).abs ≤ 1e-12 * scale
       | _, _ => Sexp.beq model implOut
     -- a better objective never gets a smaller weight
     let cls := match implWs with
